@@ -145,10 +145,19 @@ def rule_filter(ctx: Ctx, repo: Repo) -> None:
         ok = isinstance(sql, K) and isinstance(sql.v, str) and len(vals) == 1 and isinstance(vals[0], R) and vals[0].kind == "list" and \
             list(vals[0].fields["items"]) == [S("module"), S("prefix"), S("prefix"), S("limit")][:len(vals[0].fields["items"])] and S("limit") in vals[0].fields["items"]
         ctx.check(ok, "R-C09.3", flt.fq, "filter passes its module, prefix and limit arguments to the query unchanged", construct=f"{vals}")
-    res = outs[0].freeze(outs[0].term[1]) if outs[0].term and outs[0].term[0] == "return" else None
-    ok = isinstance(res, R) and res.kind == "comp" and not res.fields["ifs"] and isinstance(res.fields["over"], R) and res.fields["over"].kind == "rows" and \
-        res.fields["over"].fields["how"] == K("fetchall") and isinstance(res.fields["elt"], R) and res.fields["elt"].kind == "row_object"
-    ctx.check(ok, "R-C09.3", flt.fq, "filter returns one row object per fetched row (fetchall, unfiltered)", construct=str(res)[:160])
+    fetches = [e for e in outs[0].effects if e[0] == "fetch"]
+    ctx.check([e[1] for e in fetches] == ["fetchall"], "R-C09.3", flt.fq, "the whole result set is fetched (fetchall, once)", construct=f"{[e[1] for e in fetches]}")
+    for nrows in (0, 1, 3):
+        rows = K(tuple(K(tuple(S(f"r{i}.{c}") for c in ("module", "qualname", "arg_types", "return_type", "yield_type"))) for i in range(nrows)))
+        sc2 = DM.DbScenario(repo, "SQLiteStore.filter", {"table": K("T")})
+        sc2.rows = rows
+        o2 = sc2.run(env)
+        if len(o2) != 1:
+            raise AnalysisError("filter forked on concrete rows")
+        res = o2[0].freeze(o2[0].term[1]) if o2[0].term and o2[0].term[0] == "return" else None
+        want = R("list", items=tuple(R("row_object", args=K(tuple(r.v))) for r in rows.v))
+        ctx.check(res == want, "R-C09.3", flt.fq, "filter returns one row object per fetched row (fetchall, unfiltered)",
+                  construct=f"{nrows} fetched row(s): {str(res)[:160]}")
     d = flt.defaults()
     ctx.check(isinstance(d.get(ps[3]), ast.Constant) and d[ps[3]].value == 2000, "R-C09.3", flt.fq, "the default limit is 2000", construct=norm(d.get(ps[3])))
 
@@ -307,11 +316,21 @@ def rule_list_modules(ctx: Ctx, repo: Repo) -> None:
     sel = sqlmini.parse(sql.v)
     ok = isinstance(sel, sqlmini.Select) and sel.columns == ["module"] and not sel.where and (sel.distinct or sel.group_by == ["module"]) and sel.limit is None and sel.table == "T"
     ctx.check(ok, "R-C09.7", lm.fq, "the module listing selects the module of every row, grouped, unfiltered and unbounded", construct=" ".join(sql.v.split()))
-    res = outs[0].freeze(outs[0].term[1]) if outs[0].term and outs[0].term[0] == "return" else None
-    ok = isinstance(res, R) and res.kind == "comp" and isinstance(res.fields["over"], R) and res.fields["over"].kind == "rows" and \
-        res.fields["over"].fields["how"] == K("fetchall") and isinstance(res.fields["elt"], R) and res.fields["elt"].kind == "proj" and \
-        res.fields["elt"].fields["index"] == K(0) and res.fields["ifs"] in ((), (res.fields["elt"],))
-    ctx.check(ok, "R-C09.7", lm.fq, "the listing returns the first column of every fetched row (only falsy names dropped)", construct=str(res)[:200])
+    fetches = [e for e in outs[0].effects if e[0] == "fetch"]
+    ctx.check([e[1] for e in fetches] == ["fetchall"], "R-C09.7", lm.fq, "the whole listing is fetched (fetchall, once)", construct=f"{[e[1] for e in fetches]}")
+    for names in ((), ("a",), ("b", "", "a"), (None, "z")):
+        rows = K(tuple(K((K(n),)) for n in names))
+        sc2 = DM.DbScenario(repo, "SQLiteStore.list_modules", {"table": K("T")})
+        sc2.rows = rows
+        o2 = sc2.run({})
+        if len(o2) != 1:
+            raise AnalysisError("list_modules forked on concrete rows")
+        res = o2[0].freeze(o2[0].term[1]) if o2[0].term and o2[0].term[0] == "return" else None
+        got = [x.v for x in res.fields["items"]] if isinstance(res, R) and res.kind == "list" and all(isinstance(x, K) for x in res.fields["items"]) else None
+        all_ = list(names)
+        truthy = [n for n in names if n]
+        ctx.check(got in (all_, truthy), "R-C09.7", lm.fq, "the listing returns the first column of every fetched row (only falsy names dropped)",
+                  construct=f"rows {list(names)}: {got if got is not None else str(res)[:120]}")
 
 
 def rule_schema(ctx: Ctx, repo: Repo) -> None:
